@@ -328,7 +328,36 @@ func (i *Interp) convertAssign(fr *frame, dest, src iface) string {
 			return ""
 		case u.Info()&types.IsFloat != 0:
 			ds, _ := sortOf(u)
+			if srcIsStr || srcIsBytes {
+				var s Str
+				if srcIsStr {
+					s = srcStr
+				} else {
+					s = i.conv(types.Typ[types.String], i.byteSliceType(), srcBytes).(Str)
+				}
+				cs, ok := s.Concrete()
+				if !ok {
+					i.abort(stInconclusive, "Scan of symbolic text into a float")
+				}
+				f, err := strconv.ParseFloat(cs, ds.W)
+				if err != nil {
+					return "converting driver.Value type string to a float: invalid syntax"
+				}
+				*cell = c.FConst(ds, f)
+				return ""
+			}
 			if srcIsTerm && srcTerm.Sort.K == smt.KFP {
+				if srcTerm.Sort.W < ds.W {
+					// database/sql goes through the shortest decimal text of the narrower
+					// value (asString, then ParseFloat): not the same as widening
+					if !srcTerm.IsConst() {
+						i.abort(stInconclusive, "Scan of a symbolic float32 into a float64")
+					}
+					txt := strconv.FormatFloat(smt.BitsToFloat(srcTerm.Sort, srcTerm.C), 'g', -1, srcTerm.Sort.W)
+					f, _ := strconv.ParseFloat(txt, ds.W)
+					*cell = c.FConst(ds, f)
+					return ""
+				}
 				*cell = c.FToF(srcTerm, ds)
 				return ""
 			}
